@@ -12,13 +12,16 @@ from .gates import AsyncController, Controller, CountingSource, Ledger
 from .targets import Boom, Reject, norm_exc
 
 
-def expected_outputs(items, fail, reject, return_x, return_exceptions, preproc, errval=()):
+def expected_outputs(items, fail, reject, return_x, return_exceptions, preproc, errval=(), subfail=()):
     """Reference meaning: list of outputs and the terminal ('END',) or ('RAISED', exc)."""
     out = []
     for x in items:
         if preproc and x in reject:
             y = norm_exc(Reject(x))
             failed = True
+        elif x in subfail:
+            # the submission itself (the call of `func`) raises: the stream fails here, whatever return_exceptions says
+            return out, ('RAISED', norm_exc(Reject('submit', x)))
         elif x in fail:
             y = norm_exc(Boom(x))
             failed = True
@@ -73,7 +76,7 @@ def consume(it, ledger, pause=None, stop_after=None):
     return out, term
 
 
-def run_fifo_direct(S, items, *, capacity, return_x, return_exceptions, fail=(), reject=(), preproc=False, errval=(),
+def run_fifo_direct(S, items, *, capacity, return_x, return_exceptions, fail=(), reject=(), preproc=False, errval=(), subfail=(),
                     controller: Controller, ledger: Ledger, consumer_pause=None, src_pause=None, stop_after=None):
     """fifo_stream whose `func` returns futures completed by the controller."""
     idx = {x: i for i, x in enumerate(items)}
@@ -81,6 +84,8 @@ def run_fifo_direct(S, items, *, capacity, return_x, return_exceptions, fail=(),
 
     def func(xx, **kw):
         x = _tok(xx)
+        if x in subfail:
+            raise Reject('submit', x)
         fut = concurrent.futures.Future()
         ledger.enter(x)
 
@@ -173,13 +178,15 @@ async def aconsume(ait, ledger, stop_after=None):
 
 
 async def run_async_fifo_direct(S, items, *, capacity, return_x, return_exceptions, fail=(), reject=(),
-                                preproc=False, errval=(), controller: AsyncController, ledger: Ledger, stop_after=None):
+                                preproc=False, errval=(), subfail=(), controller: AsyncController, ledger: Ledger, stop_after=None):
     idx = {x: i for i, x in enumerate(items)}
     src = AsyncCountingSource(items, ledger)
     loop = asyncio.get_running_loop()
 
     async def func(xx, **kw):
         x = _tok(xx)
+        if x in subfail:
+            raise Reject('submit', x)
         fut = loop.create_future()
         ledger.enter(x)
 
